@@ -1094,7 +1094,7 @@ def trlog(T, check=True, twist=False):
                 return np.zeros((3,))
             else:
                 return np.zeros((3, 3))
-        elif abs(np.trace(R) + 1) < 100 * _eps:
+        elif abs(np.trace(R) + 1) < 10 * _eps:
             # check for trace = -1
             #   rotation by +/- pi, +/- 3pi etc.
             diagonal = R.diagonal()
@@ -1109,9 +1109,13 @@ def trlog(T, check=True, twist=False):
             else:
                 return base.skew(w * theta)
         else:
-            # general case
-            theta = math.acos((np.trace(R) - 1) / 2)
-            skw = (R - R.T) / 2 / math.sin(theta)
+            # general case: sin(theta) * axis is the antisymmetric part, cos(theta) comes from the
+            # trace; atan2 of the two is well conditioned for every angle, whereas acos of the
+            # trace alone loses all accuracy near 0 and near pi
+            skw = (R - R.T) / 2
+            st = base.norm(base.vex(skw))
+            theta = math.atan2(st, (np.trace(R) - 1) / 2)
+            skw = skw / st
             if twist:
                 return base.vex(skw * theta)
             else:
